@@ -1,10 +1,11 @@
 #!/bin/bash
 # usage: run_all.sh <tier> [ids...]  -- runs the registered checks one after another on /repo, prints status and wall time
+HERE="$(cd "$(dirname "$0")/.." && pwd)"   # the /verif copy this script lives in (a vp run snapshot uses its own)
 TIER="${1:-quick}"; shift
 IDS="$@"
-if [ -z "$IDS" ]; then IDS=$(python3 -c "import json; print(' '.join(c['property_id'] for c in json.load(open('/verif/MANIFEST.json'))['checks']))"); fi
+if [ -z "$IDS" ]; then IDS=$(python3 -c "import json; print(' '.join(c['property_id'] for c in json.load(open('$HERE/MANIFEST.json'))['checks']))"); fi
 for C in $IDS; do
   S=$(date +%s)
-  /venv/bin/python /verif/check.py $C --tier $TIER > /tmp/runall_$C.log 2>&1; RC=$?
-  echo "$C rc=$RC wall=$(( $(date +%s) - S ))s violations=$(grep -c '^VIOLATION' /tmp/runall_$C.log) known=$(grep -c '^KNOWN-FINDING' /tmp/runall_$C.log)"
+  /venv/bin/python "$HERE/check.py" $C --tier $TIER > /tmp/runall_${TIER}_$C.log 2>&1; RC=$?
+  echo "$C rc=$RC wall=$(( $(date +%s) - S ))s violations=$(grep -c '^VIOLATION' /tmp/runall_${TIER}_$C.log) known=$(grep -c '^KNOWN-FINDING' /tmp/runall_${TIER}_$C.log)"
 done
